@@ -2,7 +2,7 @@
    pack_ok, expected result of unpack), the proofs are in Proofs.PackBits / PackRoundtrip / PackRoundtripGraph /
    PackRoundtripMol / PackLayout / PackElements / PackProofs / PackRxn / PackRxnLen / PackV0 / F16Proofs. *)
 From Coq Require Import ZArith List Bool.
-From Model Require Import PyBase Pack PackSpec PackApi F16.
+From Model Require Import PyBase Pack PackSpec PackSpecV0 PackApi F16.
 From Gen Require Import Elements.
 From Proofs Require Import PackBits PackRoundtrip PackRoundtripGraph PackRoundtripMol PackLayout PackElements PackApiProofs PackProofs PackRxn PackRxnLen PackV0 F16Proofs.
 Import ListNotations.
